@@ -4,6 +4,7 @@ package main
 // engine-side quantifier instantiation, and discharge.
 
 import (
+	"go/token"
 	"fmt"
 	"go/types"
 	"os"
@@ -28,6 +29,7 @@ type FuncResult struct {
 	Externs     []string
 	Contracts   []string
 	ReachChecks []*Obligation
+	BlockReach  []*Obligation
 }
 
 type World struct {
@@ -168,7 +170,9 @@ func (w *World) verifyFunction(key string, fc *FuncContract, mode Mode) (res *Fu
 	for _, p := range fn.Params {
 		v, inv := e.freshVal("p."+p.Name(), p.Type(), st)
 		e.assume("true", inv)
-		if _, ok := p.Type().Underlying().(*types.Pointer); ok && !(fc != nil && fc.Nilable[p.Name()]) {
+		if _, ok := p.Type().Underlying().(*types.Pointer); ok && !(fc != nil && fc.Nilable[p.Name()]) && !(comparedWithNil(fn, p) && !(fn.Signature.Recv() != nil && len(fn.Params) > 0 && p == fn.Params[0])) {
+			// non-nil unless the contract says `nilable` or the function itself
+			// tests the parameter against nil (then nil is a meaningful value)
 			e.assume("true", sx(">", v.C[0], "0"))
 		}
 		f.vals[p] = v
@@ -329,6 +333,26 @@ func (w *World) verifyFunction(key string, fc *FuncContract, mode Mode) (res *Fu
 		res.ReachChecks = append(res.ReachChecks, ro)
 	}
 	res.ReachChecks = append(res.ReachChecks, e.extraReach...)
+	// per-block reachability (thorough tier): a block that no execution
+	// allowed by the contract can enter is reported, because everything
+	// "proved" about it is vacuous
+	for i, b := range fn.Blocks {
+		r, ok := f.blockR[b]
+		if !ok || r == "" || (fn.Recover != nil && b == fn.Recover) || len(b.Instrs) == 0 {
+			continue
+		}
+		pos := ""
+		for _, in := range b.Instrs {
+			if in.Pos().IsValid() {
+				pos = e.prog.Fset.Position(in.Pos()).String()
+				break
+			}
+		}
+		bo := &Obligation{Name: fmt.Sprintf("%s#reach:block#%d", key, i), Func: key, Kind: "reachblock", Mode: mode, Reach: r, Goal: "false", prelude: e.pre, weakB2I: e.weakB2I, Pos: pos}
+		bo.snap()
+		bo.origin = b
+		res.BlockReach = append(res.BlockReach, bo)
+	}
 	return
 }
 
@@ -764,7 +788,7 @@ func dischargeOne(o *Obligation, cfg dischargeCfg) {
 	}
 	r := try("qf", cfg.timeoutS)
 	o.Stage = "qf"
-	if o.Kind == "reach" {
+	if o.Kind == "reach" || o.Kind == "reachblock" {
 		// vacuity guard: satisfiability of the instantiated assumptions suffices
 		o.Status, o.Solver, o.TimeS, o.Answers = r.Status, r.Solver, r.TimeS, r.Answers
 		return
@@ -888,4 +912,24 @@ func (f *Frame) specOnlyReturn(cr *concreteRun, st *State) {
 		vals = append(vals, v)
 	}
 	f.rets = []retRec{{reach: "true", st: post, vals: vals, ord: 1}}
+}
+
+// comparedWithNil: the function compares the parameter with nil somewhere.
+func comparedWithNil(fn *ssa.Function, p *ssa.Parameter) bool {
+	isNil := func(v ssa.Value) bool {
+		c, ok := v.(*ssa.Const)
+		return ok && c.IsNil()
+	}
+	refs := p.Referrers()
+	if refs == nil {
+		return false
+	}
+	for _, r := range *refs {
+		if b, ok := r.(*ssa.BinOp); ok && (b.Op == token.EQL || b.Op == token.NEQ) {
+			if (b.X == ssa.Value(p) && isNil(b.Y)) || (b.Y == ssa.Value(p) && isNil(b.X)) {
+				return true
+			}
+		}
+	}
+	return false
 }
